@@ -803,6 +803,18 @@ class MiniEval:
                 try:
                     return _BUILTINS[f.id](*args, **kwargs)
                 except (TypeError, ValueError) as ex:
+                    def _concrete(v):
+                        if isinstance(v, (Rec, Sym, OpVal)):
+                            return False
+                        if isinstance(v, (list, tuple, set, frozenset)):
+                            return all(_concrete(x) for x in v)
+                        if isinstance(v, dict):
+                            return all(_concrete(k) and _concrete(x) for k, x in v.items())
+                        return True
+
+                    if all(_concrete(a) for a in args) and all(_concrete(v) for v in kwargs.values()):
+                        # every argument is a concrete value: Python itself raises here (bytes((257, 0)), int("x"))
+                        raise Raised(f"{type(ex).__name__} at `{u(e)[:50]}`: {ex}", e)
                     raise AnalysisError(f"{self.where}: builtin call `{u(e)}` failed on abstract values: {ex}")
             if self.resolver is not None:
                 target = self.resolver(f.id)
